@@ -1,7 +1,7 @@
 /-
   `Inv3` (place of every task, futures, global tickets) is inductive — part C.
 -/
-import Babylon.Exec.Inv3
+import Babylon.Exec.Inv3X
 import Babylon.Exec.Inv2Pres
 
 namespace Babylon.Exec
@@ -13,18 +13,18 @@ macro "p_close" : tactic => `(tactic| (
   first
     | done
     | grind [upd, Pc.role, Pc.carry, Pc.exec, claimPc, dispatchPc, PopCtx.onEmpty, PopCtx.role, PopCtx.queue, afterLdRunS,
-        afterLdRunB, afterJoinW, role_chk, popctx_role,
+        afterLdRunB, afterJoinW, role_chk, popctx_role, Pc.pushed,
         Q.itemAt_setSt, Q.stAt_setSt, Q.itemAt_take, Q.stAt_take, Q.length_take, Q.length_setSt, Q.popIdx_setSt, Q.popIdx_take,
         Q.itemAt_claim, Q.stAt_claim, Q.popIdx_claim, Q.length_claim, Q.itemAt_bump, Q.stAt_bump, Q.popIdx_bump, Q.length_bump,
-        Item.isTask]))
+        Item.isTask, Q.itemAt_some_lt, Q.stAt_some_lt]))
 
 section
 variable {c : Cfg} {s s' : State} {t : Nat} {lb : Lbl}
 
 set_option maxHeartbeats 4000000 in
-theorem Inv3.step_b1 (I : Inv1 c s) (J : Inv2 c s) (K : Inv3 c s) (h : StepCase c s t lb s') :
+theorem Inv3.step_b1 (I : Inv1 c s) (J : Inv2 c s) (K : Inv3 c s) (X : Inv3X s) (h : StepCase c s t lb s') :
     ∀ (i id : Nat), s'.g.itemAt i = some (.task id) → s'.g.stAt i ≠ some .free → s'.loc id = .gq i := by
-  intro i id hit hst
+  intro i id hit0 hst0
   have b1 := K.b1
   have b2 := K.b2
   have b3c := K.b3c
@@ -47,7 +47,9 @@ theorem Inv3.step_b1 (I : Inv1 c s) (J : Inv2 c s) (K : Inv3 c s) (h : StepCase 
   have hx15 := role_afterSize c
   have hk : ∀ p k, s.pc t = .gPub p k → k.carry = none := by
     intro p k hp; rw [hp] at hwf; exact carry_cont c none k hwf
-  clear I J K hwf
+  have hb3c := b3c t
+  have hb3e := b3e t
+  clear I J K X hwf
   cases h
   case popClaim ctx i0 k0 nr cl hpc hq hi hcell hfull =>
     have hit := (isTask_iff cl.item).mp (l4 k0 i0 cl hcell)
@@ -78,9 +80,9 @@ theorem Inv3.step_b1 (I : Inv1 c s) (J : Inv2 c s) (K : Inv3 c s) (h : StepCase 
   all_goals (trace_state; sorry)
 
 set_option maxHeartbeats 4000000 in
-theorem Inv3.step_b2 (I : Inv1 c s) (J : Inv2 c s) (K : Inv3 c s) (h : StepCase c s t lb s') :
+theorem Inv3.step_b2 (I : Inv1 c s) (J : Inv2 c s) (K : Inv3 c s) (X : Inv3X s) (h : StepCase c s t lb s') :
     ∀ (k i id : Nat), (s'.l k).itemAt i = some (.task id) → (s'.l k).stAt i ≠ some .free → s'.loc id = .lq k i := by
-  intro k i id hit hst
+  intro k i id hit0 hst0
   have b1 := K.b1
   have b2 := K.b2
   have b3c := K.b3c
@@ -103,7 +105,9 @@ theorem Inv3.step_b2 (I : Inv1 c s) (J : Inv2 c s) (K : Inv3 c s) (h : StepCase 
   have hx15 := role_afterSize c
   have hk : ∀ p k, s.pc t = .gPub p k → k.carry = none := by
     intro p k hp; rw [hp] at hwf; exact carry_cont c none k hwf
-  clear I J K hwf
+  have hb3c := b3c t
+  have hb3e := b3e t
+  clear I J K X hwf
   cases h
   case popClaim ctx i0 k0 nr cl hpc hq hi hcell hfull =>
     have hit := (isTask_iff cl.item).mp (l4 k0 i0 cl hcell)
